@@ -148,11 +148,18 @@ def run_parse_family(ctx):
         ans = drv.ask([f"parse {pr.text_wire(t)}" for t in chunk])
         # the TRANSLATED source (Gen/PySrcTokSt + Gen/PySrcParse, regenerated from the live tokenizer.py /
         # parser.py) executed on the same text: validates the translators against the real code
-        ans_src = drv.ask([f"srcparse {pr.text_wire(t)}" for t in chunk])
-        for (t, r, o), a, a2 in zip(res, ans, ans_src):
+        # (a separate executable; when the translated source no longer builds, that is already a broken
+        # obligation of this property and the comparison is skipped)
+        src_ok = not any(b.get("kind") == "lake build" for b in ctx.broken)
+        try:
+            ans_src = core.Driver("srcdriver").ask([f"srcparse {pr.text_wire(t)}" for t in chunk]) if src_ok else None
+        except RuntimeError:
+            ans_src = None
+        stats["translated_source_executed"] = ans_src is not None
+        for (t, r, o), a, a2 in zip(res, ans, ans_src or [None] * len(ans)):
             m = pr.model_parse_answer(a)
-            m2 = pr.model_parse_answer(a2)
-            if not pr.same_parse(r, m2):
+            m2 = pr.model_parse_answer(a2) if a2 is not None else r
+            if a2 is not None and not pr.same_parse(r, m2):
                 diffs.append({"text": t, "impl": r if r[0] != "ok" else core.tuple_str(r[1]),
                               "translated_source": m2 if m2[0] != "ok" else core.tuple_str(m2[1])})
             k = r[1] if r[0] == "perr" else r[0]
